@@ -1,3 +1,5 @@
+import re
+
 from rope.base import codeanalyze, evaluate, exceptions, libutils, utils, worder
 from rope.base.codeanalyze import ArrayLinesAdapter, LogicalLineFinder
 
@@ -134,18 +136,15 @@ class _Commenter:
                 codeanalyze.get_block_start(ArrayLinesAdapter(self.lines), block_start)
                 - 1
             )
-            if self.lines[block_start].strip().startswith("try:"):
+            if re.match(r"try\s*:", self.lines[block_start].strip()):
                 indents = _get_line_indents(self.lines[block_start])
                 if indents > last_indents:
                     continue
                 last_indents = indents
                 block_end = self._find_matching_deindent(block_start)
                 line = self.lines[block_end].strip()
-                if not (
-                    line.startswith("finally:")
-                    or line.startswith("except ")
-                    or line.startswith("except:")
-                ):
+                # the colon may be separated from the keyword ("finally :")
+                if not re.match(r"(finally\s*:|except\b)", line):
                     self._insert(block_end, " " * indents + "finally:")
                     self._insert(block_end + 1, " " * indents + "    pass")
 
